@@ -15,32 +15,32 @@
 (* output carries the id of its input; a transparent node passes on what it was offered).                                  *)
 EXTENDS Integers, FiniteSets, Sequences
 CONSTANTS Nodes, Msgs
-VARIABLES kind, conc, preds, ext, pend, begun, done, run, putdone, before, nextseq, decs, thr, seqno, key, tuples, cancelled, snap, rsv, consumed, recv
-fvars == <<kind, conc, preds, ext, pend, begun, done, run, putdone, before, nextseq, decs, thr, seqno, key, tuples, cancelled, snap, rsv, consumed, recv>>
+VARIABLES kind, conc, preds, ext, pend, putseq, begun, done, run, putdone, before, nextseq, decs, thr, seqno, key, tuples, cancelled, snap, rsv, consumed, recv
+fvars == <<kind, conc, preds, ext, pend, putseq, begun, done, run, putdone, before, nextseq, decs, thr, seqno, key, tuples, cancelled, snap, rsv, consumed, recv>>
 xvars == <<snap, rsv, consumed, recv>>      \* state of the ordering / reservation / value clauses added for C15
-FInit == /\ kind = [n \in Nodes |-> "none"] /\ conc = [n \in Nodes |-> 0] /\ preds = [n \in Nodes |-> {}] /\ ext = [n \in Nodes |-> {}] /\ pend = [n \in Nodes |-> {}]
+FInit == /\ kind = [n \in Nodes |-> "none"] /\ conc = [n \in Nodes |-> 0] /\ preds = [n \in Nodes |-> {}] /\ ext = [n \in Nodes |-> {}] /\ pend = [n \in Nodes |-> {}] /\ putseq = [n \in Nodes |-> <<>>]
          /\ begun = [n \in Nodes |-> {}] /\ done = [n \in Nodes |-> {}] /\ run = [n \in Nodes |-> {}] /\ putdone = [n \in Nodes |-> <<>>]
          /\ before = [m \in Msgs |-> {}] /\ nextseq = [n \in Nodes |-> 0] /\ decs = [n \in Nodes |-> 0] /\ thr = [n \in Nodes |-> 0]
          /\ seqno = [m \in Msgs |-> -1] /\ key = [m \in Msgs |-> 0] /\ tuples = [n \in Nodes |-> 0] /\ cancelled = FALSE
          /\ snap = [n \in Nodes |-> {}] /\ rsv = [n \in Nodes |-> 0] /\ consumed = [n \in Nodes |-> {}] /\ recv = [n \in Nodes |-> <<>>]
 Keep(vs) == UNCHANGED vs
 DeclNode(n, k, c, t) == /\ kind' = [kind EXCEPT ![n] = k] /\ conc' = [conc EXCEPT ![n] = c] /\ thr' = [thr EXCEPT ![n] = t]
-                        /\ UNCHANGED <<preds, ext, pend, begun, done, run, putdone, before, nextseq, decs, seqno, key, tuples, cancelled, snap, rsv, consumed, recv>>
+                        /\ UNCHANGED <<preds, ext, pend, putseq, begun, done, run, putdone, before, nextseq, decs, seqno, key, tuples, cancelled, snap, rsv, consumed, recv>>
 DeclEdge(a, b) == /\ preds' = [preds EXCEPT ![b] = @ \cup {a}]
-                  /\ UNCHANGED <<kind, conc, ext, pend, begun, done, run, putdone, before, nextseq, decs, thr, seqno, key, tuples, cancelled, snap, rsv, consumed, recv>>
+                  /\ UNCHANGED <<kind, conc, ext, pend, putseq, begun, done, run, putdone, before, nextseq, decs, thr, seqno, key, tuples, cancelled, snap, rsv, consumed, recv>>
 DeclMsg(m, s, k) == /\ seqno' = [seqno EXCEPT ![m] = s] /\ key' = [key EXCEPT ![m] = k]
-                    /\ UNCHANGED <<kind, conc, preds, ext, pend, begun, done, run, putdone, before, nextseq, decs, thr, tuples, cancelled, snap, rsv, consumed, recv>>
+                    /\ UNCHANGED <<kind, conc, preds, ext, pend, putseq, begun, done, run, putdone, before, nextseq, decs, thr, tuples, cancelled, snap, rsv, consumed, recv>>
 RECURSIVE Offered(_)
 Offered(n) == ext[n] \cup pend[n] \cup UNION {IF kind[p] = "fn" THEN done[p] ELSE Offered(p) : p \in preds[n]}
 SeqToSet(s) == {s[i] : i \in DOMAIN s}
 \* an external try_put of m into n is invoked / returns ok (1 accepted, 0 rejected: the caller keeps the message)
-PutB(n, m) == /\ before' = [before EXCEPT ![m] = SeqToSet(putdone[n])] /\ pend' = [pend EXCEPT ![n] = @ \cup {m}]
+PutB(n, m) == /\ before' = [before EXCEPT ![m] = SeqToSet(putdone[n])] /\ pend' = [pend EXCEPT ![n] = @ \cup {m}] /\ putseq' = [putseq EXCEPT ![n] = Append(@, m)]
               /\ UNCHANGED <<kind, conc, preds, ext, begun, done, run, putdone, nextseq, decs, thr, seqno, key, tuples, cancelled, snap, rsv, consumed, recv>>
 PutE(n, m, ok) == /\ pend' = [pend EXCEPT ![n] = @ \ {m}]
                   /\ IF ok = 1 THEN ext' = [ext EXCEPT ![n] = @ \cup {m}] /\ putdone' = [putdone EXCEPT ![n] = Append(@, m)]
                              ELSE /\ UNCHANGED <<ext, putdone>>
                                   /\ \A x \in Nodes : m \notin begun[x]           \* a message reported as rejected was not processed anyway
-                  /\ UNCHANGED <<kind, conc, preds, begun, done, run, before, nextseq, decs, thr, seqno, key, tuples, cancelled, snap, rsv, consumed, recv>>
+                  /\ UNCHANGED <<kind, conc, preds, putseq, begun, done, run, before, nextseq, decs, thr, seqno, key, tuples, cancelled, snap, rsv, consumed, recv>>
 \* ordering contracts of the transparent predecessors of a body node, checked when the body begins on m
 OrderOK(n, m) == \A p \in preds[n] :
     /\ (kind[p] = "seq" => seqno[m] = nextseq[p])                                            \* sequencer: exactly 0,1,2,... in order
@@ -56,46 +56,48 @@ BB(n, m) == /\ kind[n] = "fn"
             /\ OrderOK(n, m)
             /\ begun' = [begun EXCEPT ![n] = @ \cup {m}] /\ run' = [run EXCEPT ![n] = @ \cup {m}]
             /\ nextseq' = [p \in Nodes |-> IF p \in preds[n] /\ kind[p] = "seq" THEN nextseq[p] + 1 ELSE nextseq[p]]
-            /\ UNCHANGED <<kind, conc, preds, ext, pend, done, putdone, before, decs, thr, seqno, key, tuples, cancelled, snap, rsv, consumed, recv>>
+            /\ UNCHANGED <<kind, conc, preds, ext, pend, putseq, done, putdone, before, decs, thr, seqno, key, tuples, cancelled, snap, rsv, consumed, recv>>
 BE(n, m) == /\ m \in run[n] /\ run' = [run EXCEPT ![n] = @ \ {m}] /\ done' = [done EXCEPT ![n] = @ \cup {m}]
             /\ snap' = [snap EXCEPT ![n] = UNION {ext[p] : p \in {q \in preds[n] : kind[q] = "prio"}} \ begun[n]]   \* what the priority queue holds when the (serial) sink becomes free
             /\ UNCHANGED <<rsv, consumed, recv>>
-            /\ UNCHANGED <<kind, conc, preds, ext, pend, begun, putdone, before, nextseq, decs, thr, seqno, key, tuples, cancelled>>
+            /\ UNCHANGED <<kind, conc, preds, ext, pend, putseq, begun, putdone, before, nextseq, decs, thr, seqno, key, tuples, cancelled>>
 \* a decrement message is about to be sent to limiter n
-DecB(n) == decs' = [decs EXCEPT ![n] = @ + 1] /\ UNCHANGED <<kind, conc, preds, ext, pend, begun, done, run, putdone, before, nextseq, thr, seqno, key, tuples, cancelled, snap, rsv, consumed, recv>>
+DecB(n) == decs' = [decs EXCEPT ![n] = @ + 1] /\ UNCHANGED <<kind, conc, preds, ext, pend, putseq, begun, done, run, putdone, before, nextseq, thr, seqno, key, tuples, cancelled, snap, rsv, consumed, recv>>
 \* join node n (ports fed by single producers p0 / p1 through external puts into the port pseudo-nodes a / b) emitted the tuple (x, y)
-TupQ(n, a, b, x, y) == /\ tuples[n] < Len(putdone[a]) /\ tuples[n] < Len(putdone[b])
-                       /\ x = putdone[a][tuples[n] + 1] /\ y = putdone[b][tuples[n] + 1]            \* queueing: i-th tuple = i-th message of every port
+\* (a tuple can be observed before the try_put that delivered its last component has returned: the order of a port is the order in which its single
+\* producer INVOKED the puts, putseq; rejected puts do not occur on these ports)
+TupQ(n, a, b, x, y) == /\ tuples[n] < Len(putseq[a]) /\ tuples[n] < Len(putseq[b])
+                       /\ x = putseq[a][tuples[n] + 1] /\ y = putseq[b][tuples[n] + 1]              \* queueing: i-th tuple = i-th message of every port
                        /\ tuples' = [tuples EXCEPT ![n] = @ + 1]
-                       /\ UNCHANGED <<kind, conc, preds, ext, pend, begun, done, run, putdone, before, nextseq, decs, thr, seqno, key, cancelled, snap, rsv, consumed, recv>>
-TupK(n, a, b, x, y) == /\ x \in ext[a] /\ y \in ext[b] /\ key[x] = key[y]                            \* key matching: same key, every message used once
+                       /\ UNCHANGED <<kind, conc, preds, ext, pend, putseq, begun, done, run, putdone, before, nextseq, decs, thr, seqno, key, cancelled, snap, rsv, consumed, recv>>
+TupK(n, a, b, x, y) == /\ x \in ext[a] \cup pend[a] /\ y \in ext[b] \cup pend[b] /\ key[x] = key[y]                            \* key matching: same key, every message used once
                        /\ x \notin begun[n] /\ y \notin begun[n]
                        /\ begun' = [begun EXCEPT ![n] = @ \cup {x, y}] /\ tuples' = [tuples EXCEPT ![n] = @ + 1]
-                       /\ UNCHANGED <<kind, conc, preds, ext, pend, done, run, putdone, before, nextseq, decs, thr, seqno, key, cancelled, snap, rsv, consumed, recv>>
+                       /\ UNCHANGED <<kind, conc, preds, ext, pend, putseq, done, run, putdone, before, nextseq, decs, thr, seqno, key, cancelled, snap, rsv, consumed, recv>>
 \* ---- buffering nodes used directly (try_reserve / try_release / try_consume / try_get on a queue or buffer node): an item is never lost when its
 \* reservation is released, never consumed twice, never handed to two holders
 Avail(n) == (ext[n] \cup pend[n]) \ consumed[n]        \* (an item is physically in the buffer before the put that brought it has returned)
 Reserve(n, m, ok) == /\ IF ok = 1 THEN m \in Avail(n) /\ rsv[n] = 0 /\ rsv' = [rsv EXCEPT ![n] = m]
                                 ELSE UNCHANGED rsv
-                     /\ UNCHANGED <<kind, conc, preds, ext, pend, begun, done, run, putdone, before, nextseq, decs, thr, seqno, key, tuples, cancelled, snap, consumed, recv>>
+                     /\ UNCHANGED <<kind, conc, preds, ext, pend, putseq, begun, done, run, putdone, before, nextseq, decs, thr, seqno, key, tuples, cancelled, snap, consumed, recv>>
 Release(n, m) == /\ rsv[n] = m /\ m # 0 /\ rsv' = [rsv EXCEPT ![n] = 0]
-                 /\ UNCHANGED <<kind, conc, preds, ext, pend, begun, done, run, putdone, before, nextseq, decs, thr, seqno, key, tuples, cancelled, snap, consumed, recv>>
+                 /\ UNCHANGED <<kind, conc, preds, ext, pend, putseq, begun, done, run, putdone, before, nextseq, decs, thr, seqno, key, tuples, cancelled, snap, consumed, recv>>
 Consume(n, m) == /\ rsv[n] = m /\ m # 0 /\ rsv' = [rsv EXCEPT ![n] = 0] /\ consumed' = [consumed EXCEPT ![n] = @ \cup {m}]
-                 /\ UNCHANGED <<kind, conc, preds, ext, pend, begun, done, run, putdone, before, nextseq, decs, thr, seqno, key, tuples, cancelled, snap, recv>>
+                 /\ UNCHANGED <<kind, conc, preds, ext, pend, putseq, begun, done, run, putdone, before, nextseq, decs, thr, seqno, key, tuples, cancelled, snap, recv>>
 Get(n, m) == /\ m \in Avail(n) /\ m # rsv[n] /\ consumed' = [consumed EXCEPT ![n] = @ \cup {m}]
-             /\ UNCHANGED <<kind, conc, preds, ext, pend, begun, done, run, putdone, before, nextseq, decs, thr, seqno, key, tuples, cancelled, snap, rsv, recv>>
+             /\ UNCHANGED <<kind, conc, preds, ext, pend, putseq, begun, done, run, putdone, before, nextseq, decs, thr, seqno, key, tuples, cancelled, snap, rsv, recv>>
 \* at quiescence a drain by try_get found cnt items: exactly what was put and not consumed
 Drained(n, cnt) == pend[n] = {} /\ cnt = Cardinality(Avail(n)) /\ rsv[n] = 0 /\ UNCHANGED fvars
 \* ---- overwrite_node / write_once_node n delivered value v to its successor (pseudo node) sc; single producer, so "latest" / "first" are well defined
 Deliver(sc, v) == /\ recv' = [recv EXCEPT ![sc] = Append(@, v)]
-                  /\ UNCHANGED <<kind, conc, preds, ext, pend, begun, done, run, putdone, before, nextseq, decs, thr, seqno, key, tuples, cancelled, snap, rsv, consumed>>
+                  /\ UNCHANGED <<kind, conc, preds, ext, pend, putseq, begun, done, run, putdone, before, nextseq, decs, thr, seqno, key, tuples, cancelled, snap, rsv, consumed>>
 \* at quiescence: every successor (attached at any time) of an overwrite node holds the latest value last; of a write-once node exactly the first value, once
 OwCheck(n, sc) == /\ Len(putdone[n]) > 0 /\ Len(recv[sc]) > 0
                   /\ IF kind[n] = "ow" THEN recv[sc][Len(recv[sc])] = putdone[n][Len(putdone[n])]
                                     ELSE recv[sc] = <<putdone[n][1]>>
                   /\ UNCHANGED fvars
-Cancel == cancelled' = TRUE /\ UNCHANGED <<kind, conc, preds, ext, pend, begun, done, run, putdone, before, nextseq, decs, thr, seqno, key, tuples, snap, rsv, consumed, recv>>
-ResetCancel == cancelled' = FALSE /\ UNCHANGED <<kind, conc, preds, ext, pend, begun, done, run, putdone, before, nextseq, decs, thr, seqno, key, tuples, snap, rsv, consumed, recv>>
+Cancel == cancelled' = TRUE /\ UNCHANGED <<kind, conc, preds, ext, pend, putseq, begun, done, run, putdone, before, nextseq, decs, thr, seqno, key, tuples, snap, rsv, consumed, recv>>
+ResetCancel == cancelled' = FALSE /\ UNCHANGED <<kind, conc, preds, ext, pend, putseq, begun, done, run, putdone, before, nextseq, decs, thr, seqno, key, tuples, snap, rsv, consumed, recv>>
 \* wait_for_all returned: no body running, `live` (the harness's own count of running bodies) is 0, and - in a graph whose receivers all
 \* queue / buffer (lossless = 1) and that was not cancelled - everything offered to a body node has been processed
 WaitRet(live, lossless) == /\ live = 0 /\ \A n \in Nodes : run[n] = {}
